@@ -175,5 +175,7 @@ pub fn run(rng: &mut Rng, thorough: bool, corpus: &[String]) -> Run {
             }
         }
     }
+    // the payload mutators (not translated: implementation-only read-back oracle)
+    crate::wire_gen::gen_set_payload(&mut run, rng, thorough);
     run
 }
